@@ -476,3 +476,26 @@ Proof.
       * left. congruence.
       * right. eauto.
 Qed.
+
+(** without composite objects (one point mass per root node) the factor type maps ignore the index sets and pair
+    the active unit with every other root node, each once *)
+Theorem no_composite_exact nroot r :
+  0 <= r < nroot ->
+  let spec := map (fun o => [[r]; [o]]) (other_roots nroot r) in
+  yield_no_composite nroot [r] = FOk spec /\ NoDup spec
+  /\ (forall m, fm_local m = Some false -> yield_factor_identifier 1 nroot m [r] = FOk spec)
+  /\ yield_default 1 nroot [r] = FOk spec.
+Proof.
+  intros Hr spec.
+  assert (E : yield_no_composite nroot [r] = FOk spec).
+  { unfold yield_no_composite. assert (r <? nroot = true) as -> by (apply Z.ltb_lt; lia).
+    rewrite flat_map_if_filter. unfold spec, other_roots. apply f_equal.
+    generalize (filter (fun o : Z => negb (o =? r)) (fzrange nroot)) as l.
+    induction l as [|x l IHl]; [reflexivity|]. simpl. rewrite IHl. reflexivity. }
+  split; auto. split; [|split].
+  - unfold spec. apply nodup_map_inj.
+    + intros x y _ _ H. inversion H; auto.
+    + unfold other_roots. apply NoDup_filter. apply fzrange_from_nodup.
+  - intros m Hm. unfold yield_factor_identifier. rewrite Hm. simpl. exact E.
+  - unfold yield_default. simpl. exact E.
+Qed.
